@@ -210,6 +210,8 @@ struct Allowance {
     dbl_hi: BTreeMap<String, usize>,
     /// (shard, segment id) -> keys of the events that rotation carries
     seg_events: BTreeMap<(usize, u64), BTreeSet<i64>>,
+    /// every rotation queued so far has passed both of the flush task's last two gates
+    all_done: bool,
 }
 
 fn allowance(s: &Schedule, gates: &[GateHit], upto_op: usize, acked: &[Ev]) -> Allowance {
@@ -219,7 +221,7 @@ fn allowance(s: &Schedule, gates: &[GateHit], upto_op: usize, acked: &[Ev]) -> A
     for e in acked {
         per_shard.entry(*route.get(&e.ctx).unwrap_or(&0)).or_default().push(e.clone());
     }
-    let mut a = Allowance { must: BTreeSet::new(), hide_active: false, dbl_lo: BTreeMap::new(), dbl_hi: BTreeMap::new(), seg_events: BTreeMap::new() };
+    let mut a = Allowance { must: BTreeSet::new(), hide_active: false, dbl_lo: BTreeMap::new(), dbl_hi: BTreeMap::new(), seg_events: BTreeMap::new(), all_done: true };
     for (shard, evs) in &per_shard {
         let q = evs.len() / cap; // rotations queued so far on this shard
         // rotation j <-> j-th flush.queued hit on this shard
@@ -242,6 +244,9 @@ fn allowance(s: &Schedule, gates: &[GateHit], upto_op: usize, acked: &[Ev]) -> A
             let readable = seg.map_or(false, |sg| reached(sg, &["flush.index_saved"]));
             let cols = seg.map_or(false, |sg| reached(sg, &["zone.columns_written"]));
             let cleared = seg.map_or(false, |sg| reached(sg, &["flush.passive_cleared"]));
+            if !(cleared && seg.map_or(false, |sg| reached(sg, &["flush.published"]))) {
+                a.all_done = false;
+            }
             if !readable {
                 a.hide_active = true;
             }
@@ -333,6 +338,25 @@ fn judge(s: &Schedule, b: &Built, r: &JobResult) -> (Vec<Finding>, usize, BTreeS
                                 k = Some("KF-not-path-stale-after-read-inside-zone-writer".to_string());
                             }
                         }
+                    }
+                }
+                // the same finding shows in shorter histories, and without any held flush, once reads overlap
+                // (the observation "parked, overlapping reads" issues the whole suite at once): listed when every
+                // rotation queued so far has run through the flush task's last gates at the read, the reply is a subset of the applied events, and every
+                // rotation that lost an event of this type lost all its events of this type (whole segments
+                // missing from the complement, nothing else)
+                if k.is_none() && !al.hide_active && al.all_done {
+                    let missing: Vec<i64> = want.iter().filter(|x| !gotn.contains(x)).copied().collect();
+                    let subset = gotn.iter().all(|x| want.contains(x));
+                    let whole = !missing.is_empty()
+                        && missing.iter().all(|m| al.seg_events.values().any(|evs| evs.contains(m)))
+                        && al.seg_events.values().all(|evs| {
+                            let of_type: Vec<&i64> = evs.iter().filter(|e| want.contains(e)).collect();
+                            let lost = of_type.iter().filter(|e| missing.contains(e)).count();
+                            lost == 0 || lost == of_type.len()
+                        });
+                    if subset && whole {
+                        k = Some("KF-not-path-stale-after-read-inside-zone-writer".to_string());
                     }
                 }
                 out.push(Finding { schedule: s.clone(), stage: stage.to_string(), what: format!("QUERY {t} WHERE NOT k = -1 returned {gotn:?}, applied events are {want:?}"), known: k });
